@@ -195,8 +195,8 @@ def split_json_raw(spec: dict, stream: bytes) -> tuple[list[tuple], int]:
         k = end
         while k < n and stream[k] in _WS:
             k += 1
-        if c not in b'{["':
-            seplen = k - end
+        # the white space after the document plays the part of the terminator (needed by plain values, optional otherwise)
+        seplen = k - end
         out.append((pos, k, k - pos - seplen, seplen, stream[pos:k]))
         pos = k
 
@@ -276,7 +276,9 @@ def classify(spec: dict, frame: RefFrame, limit: int | None, read_size: int) -> 
         return "band"
     if frame.size <= limit - 1:
         return "safe"
-    if frame.size > limit + read_size:
+    # raw JSON: white space after the document is not measured when it arrives together with the document's end
+    unpadded = frame.payload_len if kind == "jsonraw" else frame.size
+    if unpadded > limit + read_size:
         return "over"
     return "band"
 
